@@ -15,9 +15,26 @@ pub fn corr(ctx: &mut Ctx) {
     for lam in lambdas.iter() {
         let e = ExpRestricted01::new(*lam);
         ctx.count(&format!("lambda~1e{}", lam.log10().round()));
-        for c in 0..per {
+        // directed boundary words: the generator states at which the comparisons of the sampler flip.
+        // Uniform<f64> on [0,1) uses the top 52 bits k of a word: u = k / 2^52.  First test `c1*u < 1`: k around 2^52/c1;
+        // second test `u < c2`: k around c2 * 2^52.  (c1, c2 recomputed here as the code computes them.)
+        let c1 = lam.exp_m1() / lam;
+        let c2 = (2.0 / (1.0 + (-lam).exp())).ln() / lam;
+        let two52 = 4503599627370496.0f64;
+        let mut directed: Vec<Vec<u64>> = Vec::new();
+        let k1 = (two52 / c1) as i64;
+        for d in -3i64..=3 {
+            let k = (k1 + d).clamp(0, (1i64 << 52) - 1) as u64;
+            directed.push(vec![k << 12]);
+        }
+        let k2 = (c2 * two52) as i64;
+        for d in -2i64..=2 {
+            let k = (k2 + d).clamp(0, (1i64 << 52) - 1) as u64;
+            directed.push(vec![u64::MAX, k << 12]); // first branch rejected (c1*u >= 1), then the c2 test at its boundary
+        }
+        for c in 0..per + directed.len() as u64 {
             // 48 words are far more than one sample ever consumes (a Scripted overrun would panic → finding)
-            let words: Vec<u64> = (0..48)
+            let mut words: Vec<u64> = (0..48)
                 .map(|i| match (c + i) % 9 {
                     0 => 0,
                     1 => u64::MAX,
@@ -27,6 +44,11 @@ pub fn corr(ctx: &mut Ctx) {
                     _ => ctx.rng.next(),
                 })
                 .collect();
+            if c >= per {
+                let dwords = &directed[(c - per) as usize];
+                for (i, w) in dwords.iter().enumerate() { words[i] = *w; }
+                ctx.count("directed boundary words (c1*u vs 1, u vs c2)");
+            }
             let mut rng = Scripted { words: words.clone(), pos: 0 };
             ctx.begin_case(&format!("exp01 lambda={:e}", lam));
             ctx.mark_nontrivial();
